@@ -65,6 +65,8 @@ class PeerService(_rpyc.Service):
 
 SHAPES = ("one", "tup1", "tup2", "tupmix")
 ACTIVE_SHAPES = [SHAPES]
+ACTIVE_BAD = [0]         # how many sends may fail to encode at the owner
+BIG = 10 ** 5000         # dumpable() says yes, dump() raises ValueError (int -> str digit limit)
 ACTIVE_FETCH = [0]       # how many times the peer may ASK for an object (reference travels in a reply, collected or not)
 
 
@@ -95,6 +97,7 @@ class Sys(object):
         self.pending = []
         self.sends = dict((k, 0) for k in self.objs)
         self.backs = 0
+        self.bad_sends = 0
         self.closed = False
         self.viol = []
         # setup: both roots, async wrappers, and (user class) a warmed class cache at P
@@ -177,6 +180,21 @@ class Sys(object):
             x = self.arg(k, shape)
             self.sends[k] += 1
             self.drive(self.O, lambda: self.pending.append(self.a_take(x)), self.P, s)
+        elif op == "bad_send":
+            # the object travels next to a value that passes dumpable() but cannot be encoded (an integer beyond the
+            # interpreter's digit limit): the send fails at the owner, the message never leaves
+            o = self.objs[ev[1]]
+            self.bad_sends += 1
+
+            def go():
+                try:
+                    self.pending.append(self.a_take((o, BIG)))
+                    return "sent"
+                except ValueError:
+                    return "refused"
+            r = self.drive(self.O, go, self.P, s)
+            if r != "refused":
+                self.viol.append(("unencodable-message-not-refused", repr(r)))
         elif op == "ssend":
             self.sends[ev[1]] += 1
             o = self.objs[ev[1]]
@@ -250,6 +268,9 @@ class Sys(object):
             out.append(("drop", i))
             if self.backs < max_backs:
                 out.append(("back", i))
+        if self.bad_sends < ACTIVE_BAD[0]:
+            for k in sorted(self.objs):
+                out.append(("bad_send", k))
         if self.fetches < ACTIVE_FETCH[0]:
             for k in sorted(self.objs):
                 out.append(("fetch", k, "one"))
@@ -297,7 +318,7 @@ class Sys(object):
         return (tuple(table), tuple(held), tuple(cache), cn.enc(self.frames(self.w.a)), cn.enc(self.frames(self.w.b)),
                 tuple(sorted(self.sends.items())), self.backs, c.closed, s.closed, len(self.osvc.given),
                 len(c._request_callbacks) if not c.closed else -1, self.fetches, tuple(bool(r._is_ready) for r in self.presults),
-                len(s._request_callbacks) if not s.closed else -1)
+                len(s._request_callbacks) if not s.closed else -1, self.bad_sends)
 
     # -- probes (destructive)
     def probe_use_then_close(self):
@@ -344,7 +365,7 @@ class Sys(object):
         left = [ids[idp[2]] for idp in c._local_objects._dict if idp[2] in ids]
         if left:
             cnt = [c._local_objects._dict[idp][1] for idp in c._local_objects._dict if idp[2] in ids]
-            out.append(("leak-at-quiescence", "peer holds nothing and all notices were processed, but O's table still "
+            out.append(("leak-at-quiescence" + (":after-a-send-that-failed-to-encode" if self.bad_sends else ""), "peer holds nothing and all notices were processed, but O's table still "
                         "references object(s) %r (counts %r)" % (sorted(left), cnt)))
         if self.kind == "thing" and not left:
             refs = dict((k, weakref.ref(o)) for k, o in self.objs.items())
@@ -427,6 +448,7 @@ CONFIGS = {
         ("list/2obj/2sends/shapes=one,tup2", "list", 2, 2, 0, False, 40),
         ("thing/1obj/2sends", "thing", 1, 2, 1, True, 40),
         ("list/1obj/1send/fetch=2/shapes=one", "list", 1, 1, 1, False, 40),
+        ("list/1obj/2sends/badsend=1/shapes=one", "list", 1, 2, 0, False, 40),
     ],
     "thorough": [
         ("list/1obj/4sends", "list", 1, 4, 2, True, 60),
@@ -437,6 +459,8 @@ CONFIGS = {
         ("list/1obj/2sends/fetch=2/shapes=one,tup2", "list", 1, 2, 1, False, 60),
         ("list/2obj/1send/fetch=3/shapes=one", "list", 2, 1, 0, False, 60),
         ("thing/1obj/1send/fetch=2/shapes=one", "thing", 1, 1, 1, False, 60),
+        ("list/1obj/2sends/badsend=2/shapes=one,tup2", "list", 1, 2, 1, False, 60),
+        ("thing/1obj/2sends/badsend=1/shapes=one", "thing", 1, 2, 0, False, 60),
     ],
 }
 
@@ -474,12 +498,15 @@ def probe_states(res_states, probe):
 
 def set_shapes(name):
     ACTIVE_FETCH[0] = 0
+    ACTIVE_BAD[0] = 0
     ACTIVE_SHAPES[0] = SHAPES
     for part in name.split("/"):
         if part.startswith("shapes="):
             ACTIVE_SHAPES[0] = tuple(part[7:].split(","))
         if part.startswith("fetch="):
             ACTIVE_FETCH[0] = int(part[6:])
+        if part.startswith("badsend="):
+            ACTIVE_BAD[0] = int(part[8:])
 
 
 def run_config(cfg, max_seconds):
